@@ -11,11 +11,12 @@ DRIVER = "drv_engine"
 HARNESS_BIN = "engine"
 PARTIAL = [
     "Qbice.CoreFw.core_exec_justified_partial / core_exec_once_partial / core_rounds_exec_once_partial / "
-    "core_external_only_on_demand_or_refresh_partial: proved for all acyclic programs of "
-    "(Shape p: no projection over a projection, or all projections with static read sets; since the F13 repair 22e1f15 every execution is justified by a never-computed key or a changed observed dependency — the former third disjunct Forced is gone); core_requery_executes_nothing and core_refresh_reexecutes_all_externals for all kinds. For "
-    "dynamic projections over projections the justification rule (C03_exec_justified_full_statement) "
-    "is enforced by the harness oracle on the implementation and by equality of executor-invocation "
-    "multisets with both models.",
+    "core_external_only_on_demand_or_refresh_partial: proved under Shape p (as C01: every projection that is read by "
+    "a projection has a value-independent read sequence). Since the F13 repair 22e1f15 every execution is a first "
+    "computation or has an observed dependency whose value changed (no backward-projection disjunct). "
+    "core_requery_executes_nothing and core_refresh_reexecutes_all_externals hold for all kinds. Missing: dynamic "
+    "projections read by projections (C03_exec_justified_full_statement stays a def); there the rule is enforced by "
+    "the harness oracle on the implementation and by equality of executor-invocation multisets with both models.",
 ]
 ASSUMPTIONS = c01.ASSUMPTIONS + ["no cancellation (the property excludes it)"]
 TRUSTED_EXTRA = c01.TRUSTED_EXTRA
